@@ -2,7 +2,7 @@ SPEC = {
     'id': 'C15',
     'harness': 'hC15',
     'coq_dir': 'C15',
-    'claimed': False,
+    'claimed': True,
     'theorems': ['C15_invariants_partial', 'C15_weighted_sums_partial', 'C15_exec_consistency_partial',
                  'C15_error_changes_nothing', 'C15_same_account_partial',
                  'C15_conservation_refuted', 'C15_failed_op_atomic_refuted', 'C15_nonneg_refuted',
